@@ -25,6 +25,12 @@ pub struct Case {
     /// entry sizes as fractions (x/1024) of budget/4, cycled
     pub sizes: Vec<u16>,
     pub key_mod: u16,
+    /// the k-th `create()` call fails once (a transient failure of the chunk creator); the harness ignores that
+    /// error and keeps inserting, as a caller treating it as transient would. This is the scenario that makes the
+    /// bound `max_nb_chunks + 2` (rather than +1) tight: a failed merge leaves `max` chunks, the next spill adds one,
+    /// and the retried merge creates one more.
+    #[serde(default)]
+    pub create_fault: Option<u16>,
 }
 
 impl Prop for C08 {
@@ -64,7 +70,12 @@ impl Prop for C08 {
                 amount,
                 sizes,
                 key_mod,
+                create_fault: None,
             });
+        let faulty = (hooked.clone(), 0u16..24).prop_map(|(mut c, k)| {
+            c.create_fault = Some(k);
+            c
+        });
         let public = (
             prop::sample::select(vec![0usize, 1024, 10 * 1024 * 1024, 12 * 1024 * 1024]),
             any::<bool>(),
@@ -81,8 +92,16 @@ impl Prop for C08 {
                 amount,
                 sizes,
                 key_mod,
+                create_fault: None,
             });
-        vec![stage("hooked", hooked, tier.pick(640, 20_000)).shrink(200), stage("public-threshold", public, tier.pick(2, 8)).shrink(0)]
+        // NOT registered: the fault-and-continue scenario is outside C08's quantifier (see DESIGN 12, false alarms);
+        // kept for experiments with VERIF_C08_FAULTS=1
+        let mut stages = Vec::new();
+        if std::env::var("VERIF_C08_FAULTS").is_ok() {
+            stages.push(stage("transient-create-failure", faulty, tier.pick(1000, 20_000)).shrink(200));
+        }
+        stages.extend([stage("hooked", hooked, tier.pick(2000, 40_000)).shrink(200), stage("public-threshold", public, tier.pick(2, 8)).shrink(0)]);
+        stages
     }
 
     fn rule(&self) -> String {
@@ -124,6 +143,9 @@ impl Prop for C08 {
         let t = conf.effective_budget();
         let bound = if case.allow_realloc { 2 * t } else { t };
         let ctl = ioinstr::ctl();
+        if let Some(k) = case.create_fault {
+            ctl.borrow_mut().fault = Some(ioinstr::FaultPlan { kind: ioinstr::Kind::Create, k: k as u64, err: ioinstr::ErrKind::Other });
+        }
         let mut b = grenad::Sorter::builder(MF::plain(MergeKind::Last)).chunk_creator(Creator { ctl: ctl.clone() });
         conf.apply(&mut b);
         let mut s = b.build();
@@ -145,7 +167,16 @@ impl Prop for C08 {
             let vlen = size - klen;
             value[0] = i as u8;
             let before = ctl.borrow().created;
-            serr("Sorter::insert", catch(|| s.insert(&key[..klen], &value[..vlen])))?;
+            let fired_before = ctl.borrow().fired;
+            match catch(|| s.insert(&key[..klen], &value[..vlen])) {
+                Ok(Err(grenad::Error::Io(_))) if ctl.borrow().fired && !fired_before => {
+                    // the injected transient failure: the entry was not stored; carry on
+                    obs.class("spill:create-fault-hit");
+                    i += 1;
+                    continue;
+                }
+                r => serr("Sorter::insert", r)?,
+            }
             let (after, live, max_live) = {
                 let c = ctl.borrow();
                 (c.created, c.live_chunks, c.max_live_chunks)
